@@ -292,6 +292,7 @@ func cntStr(c *cbreaker.EventCount) string {
 
 func runWindow(fs *flag.FlagSet, args []string) {
 	cf := addCommon(fs)
+	adders := fs.Bool("adders", false, "the bucket adders (layers a, r) yield too: a reporter can be preempted between reading the current bucket and adding to it (monitors only, no acceptor)")
 	fs.Parse(args)
 	cf.open()
 	cf.runRange(func(run int, rng *rand.Rand) {
@@ -478,8 +479,11 @@ func runWindow(fs *flag.FlagSet, args []string) {
 		for i, th := range p.ths {
 			bodies = append(bodies, body(i, th))
 		}
-		runf(run, "family=fine/%s window=%d interval=%d t0=%d stick=%d special=%d@%d->ph%d %s", sub, window, interval, t0, s.stick, p.special, p.at, p.resumeAt, strings.Join(desc, " "))
+		runf(run, "family=fine/%s adders=%v window=%d interval=%d t0=%d stick=%d special=%d@%d->ph%d %s", sub, *adders, window, interval, t0, s.stick, p.special, p.at, p.resumeAt, strings.Join(desc, " "))
 		layers := map[string]bool{"b": true, "q": true, "k": true} // a (adders) and r (their random probes): no scheduling point, no log line
+		if *adders {
+			layers["a"], layers["r"] = true, true
+		}
 		res := vsched.Run(out, layers, bodies, 400000, pick)
 		fmt.Fprintf(out, "end\n")
 		if len(early) > 0 {
